@@ -175,7 +175,7 @@ class GAF:
                     if pattern not in tags:
                         tags[pattern] = val
 
-                    if pattern == "tp:A" and (val != "P" or val != "p"):
+                    if pattern == "tp:A:" and val not in ("P", "p"):
                         is_primary = False
 
         return Alignment(
